@@ -63,6 +63,7 @@ def known_match(known, prop, signature):
 
 # reach probes that must be non-zero in a batch (otherwise the batch is not a pass)
 REQUIRED_PROBES = {
+    "C16": ["nary_pattern_evaluated", "axle_constructed"],
     "C17": ["last_handle_dropped"],
     "C15": ["set_rejected", "set_rejected_while_following", "set_time_after_clock_moved", "update_while_following", "adapter_get"],
     "C02": ["two_different_errors", "nary_leading_absent", "equivalence_checked"],
@@ -79,6 +80,12 @@ REQUIRED_PROBES = {
 }
 
 RULES = {
+    "memory": ("(a) native with scratch arrays poisoned (--cfg rrtk_verif): plans sweeping SumStream/ProductStream arity 1..8 x absent "
+               "patterns (enumerated by run index: cells C16.nary of 1020), terminal own/partner presence (C16.terminal of 6), "
+               "Axle<0..8>::new + reads + updates (C16.axle of 9), judged by the C02/C08/C09 oracles; the same family interpreted "
+               "by Miri without the hook (real uninitialised memory). (b) forbid(unsafe_code) programs: 11 accessors x {scope end, "
+               "move out of Box} with a live link, plus controls, one Miri process each. distinct = plan-history hash (a) + number of "
+               "distinct (accessor, crash kind, seed) shapes interpreted (b)."),
     "refs": ("(a) each case is one seeded history (<= 12 ops + final drops) of clone / drop / to_dyn! / borrow+read / "
              "borrow_mut+write-unique over one of the six Reference variants with a drop-tracking payload, run both from a "
              "crate without cargo features and from one that declares alloc/std; non-trivial = contains a to_dyn!; distinct = "
@@ -113,6 +120,11 @@ RULES = {
 }
 
 COMPONENTS = {
+    "memory": {
+        "real": ["SumStream/ProductStream<1..8>::get", "Terminal state/command/combined reads", "Axle<0..8>::new/update",
+                 "all 11 terminal accessors of devices and wrappers", "connect/disconnect"],
+        "stub": ["leaf getters", "inner motor/encoder of wrappers"],
+    },
     "refs": {
         "real": ["Reference (all six variants)", "ReferenceUnsafe::clone/borrow/borrow_mut", "Borrow/BorrowMut Deref", "to_dyn!",
                  "rc_ref_cell_reference / arc_mutex_reference / arc_rw_lock_reference"],
@@ -175,6 +187,7 @@ def write_evidence(prop, tier, seed, world, res, violations, known_hits, wall, e
         "operator_layer_evaluations": res["counts"].get("operator_layer_evaluations", 0),
         "ill_conditioned_skipped": res["counts"].get("ill_conditioned_skipped", 0),
         "cells_reached": res["cells_reached"],
+        "cells_by_space": res.get("cells_by_space", {}),
         "trace_digest": res["trace_xor"] + res["trace_sum"],
         "components": COMPONENTS.get(world, {}),
         "known_findings_reproduced": known_hits,
@@ -414,6 +427,202 @@ def check_c17(tier, seed):
     finish(prop, tier, seed, lines, violations, len(a["known_hits"]), res["runs"], res["distinct_nontrivial"], wall, missing)
 
 
+# ---------------------------------------------------------------- C16: memory safety
+
+MIRI_DIR = os.path.join(VERIF, "miri")
+DANGLE_SHAPES = [
+    "Invert::get_terminal_1", "Invert::get_terminal_2", "GearTrain::get_terminal_1", "GearTrain::get_terminal_2",
+    "Axle::get_terminal", "Differential::get_side_1", "Differential::get_side_2", "Differential::get_sum",
+    "ActuatorWrapper::get_terminal", "GetterStateDeviceWrapper::get_terminal", "PIDWrapper::get_terminal",
+]
+
+
+def miri_cmd(binname, args):
+    return ["cargo", "+nightly", "miri", "run", "--offline", "--bin", binname, "--"] + [str(a) for a in args]
+
+
+def miri_env():
+    e = dict(ENV)
+    e["MIRIFLAGS"] = ""
+    e.pop("RUSTFLAGS", None)
+    return e
+
+
+def miri_run_many(jobs, workers=None):
+    """jobs: list of (key, binname, args). Returns {key: (returncode, output)}; runs in parallel."""
+    from concurrent.futures import ThreadPoolExecutor
+    # build once first so the parallel interpreters only run
+    b = run(["cargo", "+nightly", "miri", "run", "--offline", "--bin", "scratch", "--", "only", "axle", "0"], cwd=MIRI_DIR, env=miri_env())
+    if b.returncode != 0 and "Undefined Behavior" not in b.stdout:
+        print(b.stdout[-4000:])
+        harness_error("the Miri programs do not build / run against /repo's working tree")
+
+    def one(job):
+        key, binname, args = job
+        r = run(miri_cmd(binname, args), cwd=MIRI_DIR, env=miri_env(), timeout=3600)
+        return key, (r.returncode, r.stdout)
+    with ThreadPoolExecutor(max_workers=workers or (os.cpu_count() or 16)) as ex:
+        return dict(ex.map(one, jobs))
+
+
+def miri_ub(output):
+    return "Undefined Behavior" in output
+
+
+def write_miri_replay(prop, name, binname, args, sig, note):
+    dest_dir = os.path.join(REPLAYS, prop)
+    os.makedirs(dest_dir, exist_ok=True)
+    dest = os.path.join(dest_dir, name + ".miri")
+    with open(dest, "w") as f:
+        f.write("# rrtk-miri replay: cd /verif/miri && cargo +nightly miri run --offline --bin %s -- %s\n" % (binname, " ".join(str(a) for a in args)))
+        f.write("# %s\n" % note.replace("\n", " "))
+        f.write("bin=%s\nargs=%s\nexpect=%s\n" % (binname, " ".join(str(a) for a in args), sig))
+    return dest
+
+
+def miri_replay(path):
+    kv = {}
+    for line in open(path):
+        if "=" in line and not line.startswith("#"):
+            k, v = line.strip().split("=", 1)
+            kv[k] = v
+    r = run(miri_cmd(kv["bin"], kv["args"].split()), cwd=MIRI_DIR, env=miri_env(), timeout=3600)
+    print(r.stdout[-3000:])
+    return miri_ub(r.stdout) or (r.returncode != 0 and "panicked" in r.stdout)
+
+
+def scan_accessors():
+    """Every public accessor that returns a terminal reference not tied to &self must be in the shape table."""
+    import re
+    found = []
+    for rel in ("src/devices.rs", "src/devices/wrappers.rs"):
+        try:
+            text = open(os.path.join("/repo", rel)).read()
+        except OSError:
+            continue
+        cur = None
+        for line in text.splitlines():
+            m = re.match(r"\s*impl<[^>]*>\s+(\w+)<", line)
+            if m:
+                cur = m.group(1)
+            m = re.search(r"pub fn (\w+)\(&self[^)]*\)\s*->\s*&'a RefCell<Terminal<'a, E>>", line)
+            if m and cur:
+                found.append("%s::%s" % (cur, m.group(1)))
+    return found
+
+
+def check_c16(tier, seed):
+    prop = "C16"
+    t0 = time.time()
+    build_main()
+    known = load_known()
+    # (a) native, scratch arrays poisoned by the rrtk_verif hook
+    a = sim_collect(prop, tier, seed)
+    lines = list(a["lines"])
+    violations = a["violations"]
+    known_hits = list(a["known_hits"])
+    # (a) the same family under Miri (real uninitialised memory)
+    jobs = []
+    if tier == "quick":
+        jobs.append(("scratch-sample", "scratch", ["sample", seed, 48]))
+    else:
+        for i in range(16):
+            jobs.append(("scratch-part%d" % i, "scratch", ["part", i, 16]))
+    # (b) device-crash shapes
+    crashes = [1] if tier == "quick" else [1, 2]
+    seeds = [seed] if tier == "quick" else [seed, seed + 1, seed + 2]
+    controls = [0, 4, 8] if tier == "quick" else list(range(11))
+    for sh in range(11):
+        for c in crashes:
+            for sd in seeds:
+                jobs.append(("dangle-%d-%d-%d" % (sh, c, sd), "dangle", [sh, c, sd]))
+    for sh in controls:
+        jobs.append(("control-%d" % sh, "dangle", [sh, 0, seed]))
+    results = miri_run_many(jobs)
+    miri_cases = 0
+    ub_reports = 0
+    shapes_run = 0
+    for key, (rc, out) in sorted(results.items()):
+        if key.startswith("scratch"):
+            done = [l for l in out.splitlines() if l.startswith("DONE cases=")]
+            if rc == 0 and done:
+                miri_cases += int(done[-1].split("=")[1])
+                continue
+            case = [l for l in out.splitlines() if l.startswith("CASE ")]
+            last = case[-1].split() if case else ["CASE", "?", "?", "0"]
+            miri_cases += len(case)
+            if last[1] == "nary":
+                args = ["only", last[2], last[3], last[4]]
+            else:
+                args = ["only", last[1], last[2]] + ([str(int(last[2]) + 2 * int(last[3]))] if last[1] == "terminal" else [])
+                if last[1] == "terminal":
+                    args = ["only", "terminal", str(int(last[2]) + 2 * int(last[3]))]
+            sig = "C16|miri_ub|scratch:%s" % (last[2] if last[1] == "nary" else last[1])
+            what = [l for l in out.splitlines() if "Undefined Behavior" in l or "panicked" in l]
+            dest = write_miri_replay(prop, "scratch-%s-seed%d" % ("-".join(args[1:]), seed), "scratch", args, sig, (what or ["failed"])[0])
+            rr = run(miri_cmd("scratch", args), cwd=MIRI_DIR, env=miri_env())
+            if rr.returncode == 0:
+                harness_error("Miri failure in %s does not reproduce with the single case %s" % (key, args))
+            ub_reports += 1
+            violations += 1
+            lines.append("VIOLATION property=%s replay=%s" % (prop, dest))
+            lines.append("  signature=%s detail=%s" % (sig, (what or ["failed"])[0].strip()))
+        elif key.startswith("control"):
+            shapes_run += 1
+            sh = int(key.split("-")[1])
+            if rc != 0:
+                sig = "C16|miri_ub|control:%s" % DANGLE_SHAPES[sh]
+                what = [l for l in out.splitlines() if "Undefined Behavior" in l or "panicked" in l]
+                dest = write_miri_replay(prop, "control-%d-seed%d" % (sh, seed), "dangle", [sh, 0, seed], sig, (what or ["failed"])[0])
+                violations += 1
+                ub_reports += 1
+                lines.append("VIOLATION property=%s replay=%s" % (prop, dest))
+                lines.append("  signature=%s detail=%s" % (sig, (what or ["failed"])[0].strip()))
+        else:
+            shapes_run += 1
+            _, sh, c, sd = key.split("-")
+            sh, c, sd = int(sh), int(c), int(sd)
+            if miri_ub(out):
+                ub_reports += 1
+                sig = "C16|dangling|%s" % DANGLE_SHAPES[sh]
+                what = [l for l in out.splitlines() if "Undefined Behavior" in l][0].strip()
+                where = [l.strip() for l in out.splitlines() if l.strip().startswith("-->")]
+                k = known_match(known, prop, sig)
+                if k:
+                    if sig not in known_hits:
+                        known_hits.append(sig)
+                        lines.append("KNOWN-FINDING: property=%s %s [%s]" % (prop, k.get("what", ""), sig))
+                    continue
+                dest = write_miri_replay(prop, "dangle-%d-%d-%d" % (sh, c, sd), "dangle", [sh, c, sd], sig, what + " " + (where[0] if where else ""))
+                violations += 1
+                lines.append("VIOLATION property=%s replay=%s" % (prop, dest))
+                lines.append("  signature=%s detail=%s %s" % (sig, what, where[0] if where else ""))
+            elif rc != 0:
+                print(out[-2000:])
+                harness_error("dangle shape %s failed without a Miri UB report" % key)
+    # accessors the shape table does not know
+    unknown = [x for x in scan_accessors() if x not in DANGLE_SHAPES]
+    wall = time.time() - t0
+    res = dict(a["res"])
+    extra = {
+        "cells_by_space": a["res"].get("cells_by_space", {}),
+        "cells_total": {"C16.nary": 1020, "C16.axle": 9, "C16.terminal": 6},
+        "miri": {"scratch_cases_interpreted": miri_cases, "crash_and_control_shapes_interpreted": shapes_run,
+                 "ub_reports": ub_reports, "interpreter_processes": len(jobs)},
+        "faults_fired_miri": {"crash_drop": sum(1 for j in jobs if j[1] == "dangle" and j[2][1] == 1),
+                              "crash_move": sum(1 for j in jobs if j[1] == "dangle" and j[2][1] == 2)},
+    }
+    res["runs"] = a["res"]["runs"] + miri_cases + shapes_run
+    res["distinct_nontrivial"] = a["res"]["distinct_nontrivial"] + shapes_run
+    write_evidence(prop, tier, seed, "memory", res, violations, known_hits, wall, extra)
+    missing = list(a["missing"])
+    if unknown:
+        for l in lines:
+            print(l)
+        harness_error("accessors returning &'a RefCell<Terminal> that the crash-shape table does not cover: %s" % ", ".join(unknown))
+    finish(prop, tier, seed, lines, violations, len(known_hits), res["runs"], res["distinct_nontrivial"], wall, missing)
+
+
 def variant_binary(name):
     """Build (if needed) and return the simulator binary of a feature variant, or None."""
     vdir = os.path.join(VERIF, "variants", name)
@@ -458,6 +667,11 @@ def main():
     except ValueError:
         seed = 1
     seed &= (1 << 63) - 1
+    if replay and replay.endswith(".miri"):
+        if miri_replay(replay):
+            print("VIOLATION property=%s replay=%s" % (prop, replay))
+            sys.exit(1)
+        sys.exit(0)
     if replay:
         build_main()
         ok, text = replay_reproduces(replay)
@@ -468,6 +682,8 @@ def main():
         sys.exit(0)
     if prop == "C17":
         check_c17(tier, seed)
+    if prop == "C16":
+        check_c16(tier, seed)
     if prop in SIM_PROPS:
         sim_batch(prop, tier, seed, SIM_PROPS[prop])
     harness_error("no check registered for %s" % prop)
